@@ -1,4 +1,5 @@
 import Avfs.Lemmas.StepFacts
+import Avfs.Lemmas.Posix
 /-
   C01 — emulated namespace operations behave as on the real Linux file system.
   Subject: the MemFS model (Avfs.FS.step), tied to /repo by `corr memfs` and compared with the Linux kernel by
@@ -30,5 +31,62 @@ theorem C01_symlink_target_clean (s : Store) (v : View) (o n : Bytes) :
 /-- the empty path is the one exception (Clean("") = "."): RemoveAll("") succeeds without looking at anything -/
 theorem C01_removeAll_empty (s : Store) (v : View) : removeAll s v [] = (s, .ok .unit) := by
   simp [removeAll]
+
+
+/-! ### MemFS against a POSIX-style reference on paths without symbolic links
+
+  The reference (Lemmas/Posix.lean) is written over the component-wise resolution `walkPath`: resolve every component
+  but the last (ENOENT for a missing one, ENOTDIR for a file, EACCES for a directory that may not be searched), then the
+  call-specific rule on the last component. The theorems hold for every tree satisfying the invariant, every user and
+  every clean absolute path; symbolic links on the way are outside (`.outside` / `.viaLink`). -/
+
+/-- Mkdir = mkdir(2): the reference's error, or one new directory entry under the last component's name in the
+    resolved parent, created with the caller's identity and `perm &^ umask` -/
+theorem C01_mkdir_posix (s : Store) (root : Ino) (v : View) (hwf : WF s root) (hn : NamesOK s) (hv : ViewOK s v)
+    (hroot : v.root = root) (cs : List Bytes) (hne : cs ≠ []) (hall : ∀ c ∈ cs, c ≠ [] ∧ ∀ x ∈ c, x ≠ SL)
+    (hdots : ∀ c ∈ cs, c ≠ [DOT] ∧ c ≠ [DOT, DOT]) (perm : Nat) :
+    match posixMkdir s v (walkPath s v root cs) with
+    | .fail e => mkdir s v (SL :: joinWith SL cs) perm = (s, .err e)
+    | .create par name => name = cs.getLast hne ∧
+        mkdir s v (SL :: joinWith SL cs) perm = ((createDir s v par name perm).1, .ok .unit)
+    | .outside => True :=
+  mkdir_posix s root v hwf hn hv hroot cs hne hall hdots perm
+
+/-- Remove = unlink(2) / rmdir(2) (as os.Remove combines them), restricted deletion included (in a directory with the
+    sticky bit a caller who is not administrator and owns neither the directory nor the entry gets EPERM from both;
+    MemFS honours the bit since the repair, instance `C01_remove_sticky_refused`), for a path that is not the root
+    (`remove_root`: EINVAL where POSIX says EBUSY) -/
+theorem C01_remove_posix (s : Store) (root : Ino) (v : View) (hwf : WF s root) (hn : NamesOK s) (hv : ViewOK s v)
+    (hroot : v.root = root) (cs : List Bytes) (hne : cs ≠ []) (hall : ∀ c ∈ cs, c ≠ [] ∧ ∀ x ∈ c, x ≠ SL)
+    (hdots : ∀ c ∈ cs, c ≠ [DOT] ∧ c ≠ [DOT, DOT]) :
+    match posixRemove s v (walkPath s v root cs) with
+    | .fail e => remove s v (SL :: joinWith SL cs) = (s, .err e)
+    | .unlink par c =>
+        remove s v (SL :: joinWith SL cs) = (deleteNode (removeChild s par (cs.getLast hne)) c, .ok .unit)
+    | .outside => True :=
+  remove_posix s root v hwf hn hv hroot cs hne hall hdots
+
+/-- restricted deletion on a concrete reachable heap ("/tmp" with mode 01777, the administrator's file "/tmp/g", the
+    user 1000 calls Remove("/tmp/g")): the reference and MemFS both refuse with EPERM and MemFS leaves the heap
+    unchanged (kernel-checked; this was the divergence witness before the repair) -/
+theorem C01_remove_sticky_refused :
+    posixRemove stickyStore exView (walkPath stickyStore exView 0 [cTmp, [103]]) = .fail .EPERM ∧
+    remove stickyStore exView [SL, 116, 109, 112, SL, 103] = (stickyStore, .err .EPERM) :=
+  remove_sticky_refused
+
+/-- Stat / Lstat = stat(2) / lstat(2) where no link is met: the attributes of the resolved node under the name of the
+    last component, or the reference's error; the state never changes -/
+theorem C01_stat_posix (s : Store) (root : Ino) (v : View) (hwf : WF s root) (hn : NamesOK s) (hv : ViewOK s v)
+    (hroot : v.root = root) (cs : List Bytes) (hne : cs ≠ []) (hall : ∀ c ∈ cs, c ≠ [] ∧ ∀ x ∈ c, x ≠ SL)
+    (hdots : ∀ c ∈ cs, c ≠ [DOT] ∧ c ≠ [DOT, DOT]) (m : SlMode) :
+    (stat s v (SL :: joinWith SL cs) m).1 = s ∧
+    match walkPath s v root cs with
+    | .found _ c => ∃ i, fillStat s c (cs.getLast hne) = some i ∧ (stat s v (SL :: joinWith SL cs) m).2 = .ok (.info i)
+    | .missingLast _ _ => (stat s v (SL :: joinWith SL cs) m).2 = .err .ENOENT
+    | .missingDir => (stat s v (SL :: joinWith SL cs) m).2 = .err .ENOENT
+    | .notDir => (stat s v (SL :: joinWith SL cs) m).2 = .err .ENOTDIR
+    | .denied => (stat s v (SL :: joinWith SL cs) m).2 = .err .EACCES
+    | .viaLink => True :=
+  stat_posix s root v hwf hn hv hroot cs hne hall hdots m
 
 end Avfs.FS
